@@ -152,6 +152,10 @@ SCENARIOS = [
     # decorated by @beartype the redefinition is noticed (caches cleared) and the callable follows the current class ...
     {'mode': 'history', 'ops': [['fwd', 'Late', 'Late', False], ['define_bt', 'Late', 0], ['fwd', 'Late', 'Late', False],
                                 ['define_bt', 'Late', 1], ['fwd', 'Late', 'Late', False]]},
+    # ... unless another decorated class of the module was redefined in between: that empties beartype's registry of decorated
+    # classes, and the next redefinition goes unnoticed (F53)
+    {'mode': 'history', 'ops': [['fwd', 'Late', 'Late', False], ['define_bt', 'Other', 0], ['define_bt', 'Late', 0], ['fwd', 'Late', 'Late', False],
+                                ['define_bt', 'Other', 1], ['fwd', 'Late', 'Late', False], ['define_bt', 'Late', 1], ['fwd', 'Late', 'Late', False]]},
     # ... when it is a plain class nothing notices (F52)
     {'mode': 'history', 'ops': [['fwd', 'Late', 'Late', False], ['define', 'Late', 0], ['fwd', 'Late', 'Late', False],
                                 ['define', 'Late', 1], ['fwd', 'Late', 'Late', False]]},
@@ -289,8 +293,11 @@ def run(ctx):
                         return isinstance(x, list) and bool(x) and (x[0] == 'unhashable' or any(mentions_unhashable(y) for y in x))
                     unhashable = any(mentions_unhashable(q) for q in case['ops'][:i + 1])
                     plain_redef = op[0] == 'fwd' and sum(1 for q in case['ops'][:i] if q[0] == 'define' and q[1] == op[1]) >= 2
+                    bt_other = op[0] == 'fwd' and any(sum(1 for q in case['ops'][:i] if q[0] == 'define_bt' and q[1] == nm) >= 2
+                                                      for nm in ('Late', 'Other') if nm != op[1]) and \
+                        sum(1 for q in case['ops'][:i] if q[0] == 'define_bt' and q[1] == op[1]) >= 2
                     shape = {'clause': 'history_dependent_answer', 'op': op[0], 'unhashable_hint': unhashable,
-                             'after_plain_redefinition': plain_redef}
+                             'after_plain_redefinition': plain_redef, 'after_other_decorated_class_redefined': bt_other}
                     if ctx.report(shape, {'case': case, 'index': i, 'op': op, 'after_history': a, 'fresh': b},
                                   'an answer after a history differs from the answer of a pristine interpreter') == 'violation':
                         failures += 1
